@@ -7,8 +7,9 @@
 (* (V(ids).hasLabel, hasLabel.hasLabel, E().hasLabel, E(ids)).           *)
 EXTENDS Traversal
 
-CONSTANT Lead     \* "all" | "label" | "label2": "label" explores only programs whose first step after the start is a
-                  \* hasLabel, "label2" those whose first two steps are
+CONSTANT Lead     \* "all" | "label" | "label2" | "mix": "label" explores only programs whose first step after the start
+                  \* is a hasLabel, "label2" those whose first two steps are, "mix" every one-step program and the
+                  \* longer ones that begin with a hasLabel
 
 GW == WorldFamily[gi]
 GG == GraphFamily[gi]
@@ -56,6 +57,7 @@ GDefined(s) ==
   /\ (s.op = "hasId" /\ s.ids = <<EIdAt(GG, 1)>>) => ty = "edge"
   /\ (Lead \in {"label", "label2"} /\ Len(prog) = 1) => s.op = "hasLabel"
   /\ (Lead = "label2" /\ Len(prog) = 2) => s.op = "hasLabel"
+  /\ (Lead = "mix" /\ Len(prog) >= 2) => prog[2].op = "hasLabel"
 
 GInit ==
   /\ gi \in GraphIdx
